@@ -273,7 +273,7 @@ type c19PlanRec struct {
 // C19 — the App Engine proxy relays each request and its response intact.
 func C19(r *core.Run) {
 	r.Level = "fault_enumeration"
-	r.SetRule("(a) concurrent client handlers + agent pollers (list/fetch/post) in one world with unique tokens: every request size x response size over {1 KiB, 999 999, 1 000 000, 1 000 001, 1 999 999, 2 000 000, 2 000 001, 3.5 MB} (sizes of the serialised messages, hit exactly), POST/PUT/GET, statuses, cacheable and not, requests never answered (504), for a third of the requests the authenticated agent of another registered backend first tries to fetch them and to post a forged response under their IDs (must be rejected, request stays pending, client gets the rightful answer), one exchange with > 11 overflow parts (11 000 001 / 12 345 678 bytes; thorough up to 25 MB); (a2) URL-reuse histories: sequences POST>GET, PUT>GET, DELETE>GET, GET>GET, other-user GETs, uncacheable variants (thorough: 150 random ones) on one URL each, run in order; (b) store-level write/read-back of requests and responses at the size boundaries on the persistent store, the caching store and the caching store with memcache failing; (c) fault plans: one exchange per plan in a world of its own, failing the n-th call of each (service, method, entity kind) seen at each endpoint (including the reads of the overflow parts of multi-part payloads at the fetch and client endpoints), datastore write outages (every Put fails) while payloads with 5-11 overflow parts are stored by the client and response-post handlers, and every pair of them for the response post; class = (phase, method, request size class, response size class, status, answered, cache-control) for exchanges, (stack, kind, size class) for blobs, (endpoint, failed operations, payload class) for fault plans")
+	r.SetRule("(a) concurrent client handlers + agent pollers (list/fetch/post) in one world with unique tokens: every request size x response size over {1 KiB, 999 999, 1 000 000, 1 000 001, 1 999 999, 2 000 000, 2 000 001, 3.5 MB} (sizes of the serialised messages, hit exactly), POST/PUT/GET, statuses, cacheable and not, requests never answered (504), for a third of the requests the authenticated agent of another registered backend first tries to fetch them and to post a forged response under their IDs (must be rejected, request stays pending, client gets the rightful answer), one exchange with > 11 overflow parts (11 000 001 / 12 345 678 bytes; thorough up to 25 MB); (a2) URL-reuse histories: sequences POST>GET, PUT>GET, DELETE>GET, GET>GET, other-user GETs, uncacheable variants (thorough: 150 random ones) on one URL each, run in order; (a3) re-registration: a backend ID registered again (admin API / store) for another agent account after the old account polled or served an exchange - the old account must be refused on list, fetch and respond and the client must receive the current agent's response; (b) store-level write/read-back of requests and responses at the size boundaries on the persistent store, the caching store and the caching store with memcache failing; (c) fault plans: one exchange per plan in a world of its own, failing the n-th call of each (service, method, entity kind) seen at each endpoint (including the reads of the overflow parts of multi-part payloads at the fetch and client endpoints), datastore write outages (every Put fails) while payloads with 5-11 overflow parts are stored by the client and response-post handlers, and every pair of them for the response post; class = (phase, method, request size class, response size class, status, answered, cache-control) for exchanges, (stack, kind, size class) for blobs, (endpoint, failed operations, payload class) for fault plans")
 	r.Assume("T = 45 s progress bound per handler call (designed waits are 30 s; fault-free calls take < 3 s); a call exceeding it is re-run alone in a fresh process before it is reported; under an injected fault the client may receive a proxy-generated 404/500/504 instead of the response; a client must receive the response posted under its own request ID, except that a GET may be answered with a byte-identical replay of a cacheable response (200, no Cache-Control) delivered earlier to the same user for a GET of the same URL (the documented GET cache); datastore transactions are not isolated by the fake")
 	bin := r.MustBuild(e3Build(r))
 	exs := c19Generate(r)
@@ -321,8 +321,23 @@ func C19(r *core.Run) {
 		outage("o6", "post", 2000001, 8500000)
 	}
 	faults["explicit"] = explicit
+	// a backend ID registered again for another agent account while the old account keeps calling
+	type reregSpec struct {
+		ID       string `json:"id"`
+		Via      string `json:"via"`
+		OldUses  string `json:"old_uses"`
+		NewFirst bool   `json:"new_first"`
+	}
+	var rereg []reregSpec
+	for i, via := range []string{"api", "store"} {
+		for j, uses := range []string{"poll", "exchange"} {
+			for k, nf := range []bool{false, true} {
+				rereg = append(rereg, reregSpec{ID: fmt.Sprintf("s%dv%d%d%d", r.Seed, i, j, k), Via: via, OldUses: uses, NewFirst: nf})
+			}
+		}
+	}
 	const T = 45000
-	spec := map[string]interface{}{"mode": "c19", "t_ms": T, "conc": r.Pick(8, 16), "backends": c19Backends, "intruder": c19Intruder, "exchanges": exs, "chains": chains, "blobs": blobs, "faults": faults}
+	spec := map[string]interface{}{"mode": "c19", "t_ms": T, "conc": r.Pick(8, 16), "backends": c19Backends, "intruder": c19Intruder, "exchanges": exs, "chains": chains, "blobs": blobs, "faults": faults, "rereg": rereg}
 	// Megabyte payloads under the race detector are dominated by shadow-memory page faults; fewer GC cycles and,
 	// in the quick tier, fewer threads contending in the kernel keep the wall time steady on a busy machine.
 	env := []string{"GOGC=400"}
@@ -344,7 +359,7 @@ func C19(r *core.Run) {
 	}
 	var plans []*c19PlanRec
 	var hangRerun []c19Exchange
-	nEx, nBlob, exact, maxMs, maxClientMs, replays, forgeries := 0, 0, 0, int64(0), int64(0), 0, 0
+	nEx, nBlob, exact, maxMs, maxClientMs, replays, forgeries, nRereg := 0, 0, 0, int64(0), int64(0), 0, 0, 0
 	got504 := 0
 	for _, ln := range res.Lines {
 		var probe struct {
@@ -355,6 +370,7 @@ func C19(r *core.Run) {
 			Discovered *int                `json:"discovered"`
 			Stats      map[string]int      `json:"exchange_stats"`
 			Phase      *string             `json:"phase"`
+			Rereg      *string             `json:"rereg"`
 			PhaseMs    int                 `json:"phase_ms"`
 			Sigs       map[string][]string `json:"sigs"`
 		}
@@ -469,6 +485,25 @@ func C19(r *core.Run) {
 			}
 		case probe.Discovered != nil:
 			r.Set(fmt.Sprintf("api_calls_seen_template_%d", *probe.Discovered), probe.Sigs)
+		case probe.Rereg != nil:
+			var rec struct {
+				Rereg    string    `json:"rereg"`
+				Via      string    `json:"via"`
+				OldUses  string    `json:"old_uses"`
+				NewFirst bool      `json:"new_first"`
+				Viol     []c19Viol `json:"viol"`
+				Broken   string    `json:"broken"`
+			}
+			json.Unmarshal(ln, &rec)
+			if rec.Broken != "" {
+				r.Broken("C19 re-registration scenario: " + rec.Broken)
+				continue
+			}
+			nRereg++
+			r.Case(fmt.Sprintf("re-registration|second-registration-via:%s|old-account-did:%s|new-agent-polls-first:%v", rec.Via, rec.OldUses, rec.NewFirst))
+			for _, v := range rec.Viol {
+				r.Violate("C19:"+v.Sig, v.Msg, map[string]string{"scenario": "backend registered for account A; A works; registered again for account B (" + rec.Via + "); client request; A then B try to serve it"}, json.RawMessage(ln))
+			}
 		case probe.Phase != nil:
 			r.Set("phase_done_after_ms_"+*probe.Phase, probe.PhaseMs)
 		case probe.Stats != nil:
@@ -565,6 +600,7 @@ func C19(r *core.Run) {
 	}
 	r.Set("exchanges", nEx)
 	r.Set("forgery_attempts_by_another_backends_agent", forgeries)
+	r.Set("reregistration_scenarios", nRereg)
 	r.Set("url_reuse_histories", len(chains))
 	r.Set("url_reuse_requests", nChainSteps)
 	r.Set("url_reuse_requests_served_a_legitimate_replay", replays)
